@@ -235,7 +235,7 @@ class World:
             it = iter(p.result(**kw))
             ent = [name, key, it, []]
             if kind == "o":
-                ent[3].append(str(next(it)))
+                ent[3].append(R.line_text(next(it)))
             self.open.append(ent)
             return []
         raise ValueError(op)
@@ -243,7 +243,7 @@ class World:
     def _finish(self, ent):
         name, key, it, got = ent
         for line in it:
-            got.append(str(line))
+            got.append(R.line_text(line))
         return (name, key, "\n".join(got), "iter")
 
     def finish_all(self):
@@ -287,11 +287,11 @@ class World:
             ents[tag] = [name, key, iter(p.result(**kw)), []]
         for tag in order:
             ent = ents[tag]
-            ent[3].append(str(next(ent[2])))
+            ent[3].append(R.line_text(next(ent[2])))
         out = []
         for tag in "ab":
             ent = ents[tag]
-            leftover = [str(x) for x in ent[2]]
+            leftover = [R.line_text(x) for x in ent[2]]
             out.append((ent[0], ent[1], "\n".join(ent[3] + leftover), "merge:" + tag, len(leftover)))
         return out
 
